@@ -155,6 +155,32 @@ def gen_codec_desc(rng, max_structs=4, max_fields=6, depth=3, var=True):
     return d
 
 
+def boundary_descs():
+    """deterministic family: each leaf kind T alone, after a pad of 7/8/15 bits, before such a pad, inside a nested struct
+    and behind a string - so that T's last bit falls on either side of a byte boundary (truncation by one byte must be
+    noticed for every one of them, including 1-bit leaves and single-valued enums)"""
+    enums = [("Z0", [("Only", 0)]), ("Z1", [("Off", 0), ("On", 1)]), ("Z5", [("A", 0), ("B", 5)])]
+    leaves = [("u", 1), ("i", 1), ("enum", "Z0"), ("enum", "Z1"), ("enum", "Z5"), ("u", 7), ("u", 8), ("u", 9), ("i", 64),
+              ("f32",), ("opt", ("u", 1)), ("opt", ("enum", "Z0")), ("dyn", ("u", 1)), ("dyn", ("enum", "Z0")),
+              ("arr", ("enum", "Z0"), 3), ("arr", ("u", 1), 9), ("str",)]
+    out = []
+    for li, leaf in enumerate(leaves):
+        d = Desc()
+        d.enums = list(enums)
+        d.all_structs = True
+        k = 0
+        for pad in (0, 7, 8, 15):
+            fs = ([("p", 0, ("u", pad))] if pad else []) + [("x", 1, leaf)]
+            d.structs.append((f"B{k}", fs)); k += 1
+            if pad:
+                d.structs.append((f"B{k}", [("x", 0, leaf), ("p", 1, ("u", pad))])); k += 1
+        d.structs.append(("In", [("a", 0, ("u", 8)), ("m", 1, leaf)]))
+        d.structs.append((f"B{k}", [("s", 0, ("str",)), ("in", 1, ("struct", "In"))])); k += 1
+        d.structs.append((f"B{k}", [("in", 0, ("struct", "In")), ("t", 1, ("enum", "Z0"))])); k += 1
+        out.append(d)
+    return out
+
+
 # ------------------------------------------------------------------ values
 
 
